@@ -1,5 +1,5 @@
 #!/usr/bin/env bash
-# D11 (C14): an input that no one declared yet (UNDECLARED, detached node) and that matches a registered glob
+# D15 (C14): an input that no one declared yet (UNDECLARED, detached node) and that matches a registered glob
 # pattern appears during the watch phase: the watcher's EXTERNAL hash job hits a missing _HASH_TRANSITIONS key.
 export PATH=/venv/bin:$PATH
 rm -rf /tmp/probe/w2 && mkdir -p /tmp/probe/w2 && cd /tmp/probe/w2
